@@ -17,13 +17,13 @@ class XHTML(_Renderer):
 
         # Force XHTML syntax on empty tags
         s = re.compile(r'(<(?:hr|br|img|link|meta|col)\b.*?)\s*/?\s*(>)',
-                       re.I|re.S).sub(r'\1 /\2', s)
+                       re.I|re.S|re.A).sub(r'\1 /\2', s)
 
         # Remove empty paragraphs
-        s = re.compile(r'<p>\s*</p>', re.I).sub(r'', s)
+        s = re.compile(r'<p>\s*</p>', re.I|re.A).sub(r'', s)
 
         # Add a non-breaking space to empty table cells
-        s = re.compile(r'(<(td|th)\b[^>]*>)\s*(</\2>)', re.I).sub(r'\1&nbsp;\3', s)
+        s = re.compile(r'(<(td|th)\b[^>]*>)\s*(</\2>)', re.I|re.A).sub(r'\1&nbsp;\3', s)
 
         return s
 
